@@ -17,7 +17,10 @@ pub enum Cond {
     None,
     Include404,
     Exclude404,
+    /// written [500, 404] in the rule: code lists are sets, not sorted sequences
     Include404_500,
+    /// excluded codes written [500, 404]
+    Exclude500_404,
 }
 
 #[derive(Clone, Copy, Debug, Serialize, Deserialize, PartialEq, Eq, Hash, PartialOrd, Ord)]
@@ -50,7 +53,7 @@ pub enum Payload {
     HeaderOverrideShared,
 }
 
-pub const CONDS: [Cond; 4] = [Cond::None, Cond::Include404, Cond::Exclude404, Cond::Include404_500];
+pub const CONDS: [Cond; 5] = [Cond::None, Cond::Include404, Cond::Exclude404, Cond::Include404_500, Cond::Exclude500_404];
 pub const CONTROLS: [Control; 12] = [
     Control::Plain,
     Control::Reset,
@@ -130,11 +133,11 @@ impl Shape {
         match self.cond {
             Cond::None => vec![],
             Cond::Include404 | Cond::Exclude404 => vec![404],
-            Cond::Include404_500 => vec![404, 500],
+            Cond::Include404_500 | Cond::Exclude500_404 => vec![500, 404],
         }
     }
     pub fn exclude(&self) -> bool {
-        self.cond == Cond::Exclude404
+        matches!(self.cond, Cond::Exclude404 | Cond::Exclude500_404)
     }
     pub fn admits(&self, c: u16) -> bool {
         match self.cond {
@@ -142,6 +145,7 @@ impl Shape {
             Cond::Include404 => c == 404,
             Cond::Exclude404 => c != 404,
             Cond::Include404_500 => c == 404 || c == 500,
+            Cond::Exclude500_404 => c != 404 && c != 500,
         }
     }
     pub fn conditional(&self) -> bool {
